@@ -93,6 +93,9 @@ type Op struct {
 	Tgt string `json:"tgt,omitempty"`
 	Msg string `json:"msg,omitempty"`
 	N   *NotiJ `json:"n,omitempty"`
+	// K == "updt": Cache.GetTarget(Tgt).GnmiUpdate(N), a write through the exported Target handle.
+	// NID > 0: the caller reuses ONE *pb.Notification object for every call with this id.
+	NID int `json:"nid,omitempty"`
 	// K == "pair": A is started, parked at the hook Park (now: inside the
 	// cache.Now override; feed: at its first callback; feeddel: at its first
 	// callback carrying a delete) -- i.e. inside its critical section -- and B
@@ -394,6 +397,7 @@ type runner struct {
 	resume   chan struct{}
 	nowVal   int64
 	hung     bool
+	reused   map[int]*pb.Notification
 }
 
 // hangs counts calls that never returned; after a few the run stops generating
@@ -596,13 +600,24 @@ func (r *runner) exec(o Op) (ob ObsJ) {
 		}
 	}()
 	switch o.K {
-	case "upd":
-		n := r.shared.mkNoti(o.N)
+	case "upd", "updt":
+		n := r.reused[o.NID]
+		if n == nil {
+			n = r.shared.mkNoti(o.N)
+			if o.NID > 0 {
+				r.reused[o.NID] = n
+			}
+		}
 		r.mu.Lock()
 		r.inputs = append(r.inputs, inputRec{n: n, cp: proto.Clone(n).(*pb.Notification)})
 		r.mu.Unlock()
-		err := r.c.GnmiUpdate(n)
-		ob.Res, ob.Multi = classify(err)
+		if o.K == "upd" {
+			ob.Res, ob.Multi = classify(r.c.GnmiUpdate(n))
+		} else if h := r.c.GetTarget(o.Tgt); h != nil {
+			ob.Res, ob.Multi = classify(h.GnmiUpdate(n))
+		} else {
+			ob.Res = "other" // no such target: there is no handle to write through
+		}
 	case "reset":
 		r.c.Reset(o.Tgt)
 		ob.Res = "ok"
@@ -737,7 +752,7 @@ func runCase(c *Case) {
 	if !c.Cfg.EventDriven {
 		opts = append(opts, cache.DisableEventDrivenEmulation())
 	}
-	r := &runner{shared: shared{}}
+	r := &runner{shared: shared{}, reused: map[int]*pb.Notification{}}
 	cache.Now = func() time.Time { return time.Unix(0, 0) }
 	// nil options are legal (WithLatencyWindows returns one) and are skipped
 	opts = append([]cache.Option{nil}, append(opts, nil)...)
@@ -975,6 +990,8 @@ func (t *termer) op(o *Op) string {
 	switch o.K {
 	case "upd":
 		return fmt.Sprintf("OUpd %s %s", vh.Z(o.Now), t.noti(o.N))
+	case "updt":
+		return fmt.Sprintf("OUpdT %s %s %s", vh.Z(o.Now), t.str(o.Tgt), t.noti(o.N))
 	case "reset":
 		return fmt.Sprintf("OReset %s %s", vh.Z(o.Now), t.str(o.Tgt))
 	case "remove":
@@ -1120,7 +1137,7 @@ func (e *emitter) add(c *Case) {
 		e.meta.Hist("op:" + o.K)
 		ob := &c.Obs[i]
 		e.meta.Hist("res:" + ob.Res)
-		if o.K == "upd" && o.N != nil {
+		if (o.K == "upd" || o.K == "updt") && o.N != nil {
 			switch {
 			case o.N.Atomic:
 				e.meta.Hist("noti:atomic")
